@@ -291,6 +291,9 @@ func checkCase(c Case) (out evid.Outcome) {
 		}
 		redirect := func() evid.Outcome {
 			loc := spy.H.Get("Location")
+			if strings.Contains(body, "MARK:") {
+				return fail(out, "redirect-with-content", "the redirect of a directory without trailing slash carries file content: %q; %s", clip(body), desc)
+			}
 			if st := spy.Status(); (st != 301 && st != 302 && st != 307 && st != 308) || nextRan {
 				return fail(out, "no-redirect", "a directory without trailing slash must be redirected: status %v, next ran=%v; %s", spy.Codes, nextRan, desc)
 			}
